@@ -1554,12 +1554,16 @@ func (v *VM) execute(ctx *Context, op opcode.Opcode, parameter []byte) (err erro
 			index := t.Index(key.Item())
 			// No error on missing key.
 			if index >= 0 {
-				if t.IsReferenced() {
-					elems := t.Value().([]stackitem.MapElement)
-					v.refs.Remove(elems[index].Key)
-					v.refs.Remove(elems[index].Value)
-				}
+				// Detach the element first: if the value leads back to the
+				// map, discounting it can release the map itself with all of
+				// its (remaining) elements.
+				elem := t.Value().([]stackitem.MapElement)[index]
+				isReferenced := t.IsReferenced()
 				t.Drop(index)
+				if isReferenced {
+					v.refs.Remove(elem.Key)
+					v.refs.Remove(elem.Value)
+				}
 			}
 		default:
 			panic("REMOVE: invalid type")
